@@ -151,7 +151,11 @@ def install_tag_parser_stub(I, prog):
         ents = [Tuple(new_string(I2, k.encode('utf-8')), new_string(I2, v.encode('utf-8'))) for k, v in seen.items()]
         return Ok(Tuple(rest, MapVal(ents, 'HashMap')))
 
-    I.stubs['Parser::parse_peek'] = parse_peek
+    # default: the crate's own grammar functions run on the winnow combinator models
+    # (mirsym/winnowmodel.py); VERIF_TAG_STUB=1 falls back to the reference matcher above
+    import os
+    if os.environ.get('VERIF_TAG_STUB') == '1':
+        I.stubs['Parser::parse_peek'] = parse_peek
 
 
 def parse_layout_blocks(I, prog, lay):
